@@ -4,6 +4,8 @@
 package vmmsg
 
 import (
+	"net/netip"
+
 	"github.com/database64128/shadowsocks-go/conn"
 
 	"verif/vnet/vudp"
@@ -27,5 +29,21 @@ func MmsgW_WriteMsgs(c *conn.MmsgWConn, msgvec []conn.Mmsghdr, flags int) (int, 
 	if err := vudp.BeforeSend(c.UDPConn, "WriteMsgs"); err != nil {
 		return 0, err
 	}
-	return c.WriteMsgs(msgvec, flags)
+	// one message per sendmmsg call, each followed by the delivery barrier (see vudp.SendBarrier); the result
+	// is what one sendmmsg over the whole vector reports: the number sent, or the error if none was
+	for i := range msgvec {
+		var dest netip.AddrPort
+		if h := &msgvec[i].Msghdr; h.Name != nil {
+			dest, _ = conn.SockaddrToAddrPort(h.Name, h.Namelen)
+		}
+		var n int
+		err := vudp.SendBarrier(c.UDPConn, dest, func() (e error) { n, e = c.WriteMsgs(msgvec[i:i+1], flags); return })
+		if err != nil || n == 0 {
+			if i == 0 {
+				return 0, err
+			}
+			return i, nil
+		}
+	}
+	return len(msgvec), nil
 }
